@@ -2,7 +2,7 @@
 From Coq Require Import ZArith List Bool Lia.
 From VD Require Import Base.Bytes Base.PixFmt Base.Text Gen.Tables Model.Engine Model.ClientMsgs Model.Rfb Model.Image.
 From VD Require Import Gen.ExprsEncodings Proofs.TieEncodings.
-From VD Require Import Proofs.FormatP.
+From VD Require Import Proofs.FormatP Proofs.ClientOpsP Proofs.PixFmtWireP Spec.C2S.
 Import ListNotations.
 Open Scope Z_scope.
 
@@ -55,3 +55,38 @@ Theorem C13_encodings_are_source : forall c,
   encodings_of c = gen_encodings (c_encoding c) (c_pseudocursor c) (c_nocursor c) (c_pseudodesktop c) (c_last_rect c) (c_qemu c).
 Proof. exact encodings_are_source. Qed.
 Print Assumptions C13_encodings_are_source.
+
+(** The 16-byte block on the wire ('!BB??HHHBBBxxx'): EVERY block of sixteen bytes a server can
+    announce is read as a format with in-range fields and 0/1 flags; a string of any other length
+    is not read at all; and a format written by to_bytes is read back by from_bytes exactly - in
+    particular the block inside the SetPixelFormat the client writes reads back as the format
+    the client then interprets pixel data in. *)
+Theorem C13_every_announced_block_is_read : forall a b c d e1 e0 f1 f0 g1 g0 h i j x y z,
+  Forall (fun v => 0 <= v <= 255) [a; b; c; d; e1; e0; f1; f0; g1; g0; h; i; j; x; y; z] ->
+  exists p, pf_from_bytes [a; b; c; d; e1; e0; f1; f0; g1; g0; h; i; j; x; y; z] = Some p /\
+            pf_ok p /\ flag (pf_bigendian p) /\ flag (pf_truecolor p).
+Proof. exact pf_every_block_parses. Qed.
+Print Assumptions C13_every_announced_block_is_read.
+
+Theorem C13_block_length : forall b, List.length b <> 16%nat -> pf_from_bytes b = None.
+Proof. exact pf_wrong_length_rejected. Qed.
+Print Assumptions C13_block_length.
+
+Theorem C13_wire_roundtrip : forall p,
+  pf_ok p -> flag (pf_bigendian p) -> flag (pf_truecolor p) ->
+  exists pb, pf_to_bytes p = Some pb /\ List.length pb = 16%nat /\ pf_from_bytes pb = Some p.
+Proof. exact pf_wire_roundtrip. Qed.
+Print Assumptions C13_wire_roundtrip.
+
+Theorem C13_setPixelFormat_reads_back : forall p,
+  pf_ok p -> flag (pf_bigendian p) -> flag (pf_truecolor p) ->
+  exists w pb, setPixelFormat p = Some w /\ parse_c2s w = Some [MSetPixelFormat pb] /\
+               pf_from_bytes pb = Some p.
+Proof. exact setPixelFormat_reads_back. Qed.
+Print Assumptions C13_setPixelFormat_reads_back.
+
+(** non-vacuity: the two formats the client ever announces meet the hypotheses *)
+Example C13_announced_formats_ok :
+  pf_ok RGB32 /\ flag (pf_bigendian RGB32) /\ flag (pf_truecolor RGB32) /\
+  pf_ok BGR16 /\ flag (pf_bigendian BGR16) /\ flag (pf_truecolor BGR16).
+Proof. unfold pf_ok, C2SP.rng, flag; cbn; repeat split; try lia; auto. Qed.
